@@ -74,4 +74,23 @@ PROPS = {
         "assumptions": [STABLE],
         "min_counters": {"fits.ok": 1000, "short.err": 1000, "oversize.err": 10},
     },
+    "C19": {
+        "title": "Value types never panic and clones are independent",
+        "profiles": ["dev", "release"],
+        "thorough_profiles": ["miri"],
+        "scale": {"miri": 0.002},
+        "crash_is_violation": True,
+        "rule": ("panic monitor (catch_unwind + hook recording message/location) around every public constructor, "
+                 "accessor, conversion and mutator of the stun-rs value types and the agent's StunAttributes / client "
+                 "builder: all 65536 u16 and 256 u8 arguments exhaustively; hostile strings (ASCII, 2/3/4-byte UTF-8, "
+                 "controls, quotes, non-ASCII spaces, nonce-cookie shaped values with multi-byte characters across byte "
+                 "offsets 9..13) at boundary lengths around 0/508/509/763; every is_*/as_* accessor on every attribute "
+                 "kind; sequences build -> clone -> mutate either copy -> read both for PasswordAlgorithms, "
+                 "UnknownAttributes, StunAttributes (rendering of the untouched copy compared). expect_* accessors are "
+                 "excluded as documented. Non-trivial = every case; distinct = hash of the argument."),
+        "assumptions": ["API table written by hand from the pub fn listing of stun-rs/src; uncovered public functions "
+                        "are listed in coverage.uncovered_pub_fns"],
+        "min_counters": {"api.calls": 100000, "clone.PasswordAlgorithms": 500, "clone.UnknownAttributes": 500,
+                         "clone.StunAttributes": 500},
+    },
 }
